@@ -31,6 +31,7 @@ func runC09(w *World, r *Report) {
 	r.Rule("C09/EXISTS-IS-ERROR", "from the error edge of Storage.Create no cluster or storage write is reachable in install, upgrade and rollback: the loser leaves without touching anything", 3)
 	r.Rule("C09/LOCK", "every access to the memory driver's shared fields happens with its RWMutex held (writes under Lock), and a writing method performs all its accesses — also those of helpers it calls — inside one write-locked section", 10)
 	r.Rule("C09/IMMUTABLE", "the Kubernetes-backed drivers have no field writes outside their constructors", 2)
+	r.Rule("C09/PRUNE", "making room in the history before the create never removes the revision that is being created (the record of the operation that won the race): the pruner gets the new record's Version and selects older revisions only", 3)
 	r.Rule("C09/REPORT-LOCK", "the upgrade reporter holds the operation mutex around the failure handling and the send", 1)
 
 	r.Remap = func(rule string) string {
@@ -39,6 +40,8 @@ func runC09(w *World, r *Report) {
 			return "C09/CREATE-FIRST"
 		case "C01/CREATE-VERB":
 			return "C09/CREATE-VERB"
+		case "C01/PRUNE":
+			return "C09/PRUNE"
 		}
 		return rule
 	}
@@ -87,6 +90,7 @@ func runC09(w *World, r *Report) {
 		r.Check(bad == "" && len(oks) > 0, "C09/EXISTS-IS-ERROR", op.Name+"/"+FuncName(F), w.InstrPos(leaf), "after a failed Storage.Create only error exits are reachable, without any write", "after a failed Storage.Create (another operation won the race) the loser can still reach "+bad)
 	}
 	c01CreateVerb(w, r)
+	c01Prune(w, r)
 	r.Remap = nil
 
 	c09PendingCheck(w, r, ef)
